@@ -1,4 +1,5 @@
 import Babylon.Core.Trace
+import Babylon.Gen.Coro
 import Babylon.Coro.Futex
 import Babylon.Coro.Cancel
 import Babylon.Coro.Await
@@ -66,8 +67,8 @@ def holdsLock (r : FState) (a : Actor) : Bool :=
 
 def parseExec (s : String) : Option Nat := nameNum "e" s
 
-def allActors (r : FState) : List Actor :=
-  (r.stacks.map (fun p => Actor.cl p.1)) ++ [.cl 0]
+def allActors (_r : FState) : List Actor :=
+  (List.range 64).map Actor.cl
 
 /-- after a step of frame `h` on OS thread `t`: a frame that parked leaves the thread -/
 def afterFrameStep (r : FState) (t : Nat) (a : Actor) : FState :=
@@ -239,8 +240,7 @@ def headerVal (hdr : List String) (key : String) : Option String :=
 def initR (hdr : List String) : RState :=
   match headerVal hdr "mode" with
   | some "futex" =>
-    let nf := (headerVal hdr "nextfirst").map (· == "1") |>.getD true
-    .futex { c := { nextFirst := nf }, s := State.init }
+    .futex { c := { nextFirst := Babylon.Gen.Coro.wakeAllNextFirst }, s := State.init }
   | some "cancel" => .cancel Babylon.Coro.Cancel.RState.init
   | some "await" => .await Babylon.Coro.Await.RState.init
   | _ => .other
